@@ -10,8 +10,7 @@ import (
 
 // family gotext: <go file>  ->  Gen/<X>Text.lean
 //
-// The SYNTACTIC tie, used only where no semantic translation exists: the pump of pipe.New (unbound.go), the
-// pointer-level queue (queue.go) and the three goroutine-free helpers of pipe.go.  Each listed function is printed
+// The SYNTACTIC tie, used only where no semantic translation exists: the pointer-level queue (queue.go) and the three goroutine-free helpers of pipe.go.  Each listed function is printed
 // by go/printer without comments, one trimmed non-empty line per list element:
 //
 //	def <fn> : List String := ["func New[T any](ctx context.Context, cap int) (<-chan T, chan<- T) {", "eg := make(chan T, cap)", …]
@@ -23,7 +22,6 @@ import (
 func init() { families["gotext"] = gotextFamily }
 
 var gotextFns = map[string][]string{
-	"unbound.go": {"New"},
 	"queue.go":   {"newq", "enq", "deq", "head", "emit"},
 	"pipe.go":    {"Seq", "ToSeq", "StdErr"},
 }
